@@ -107,9 +107,9 @@ def c18_family_listed(text: str | None, case: Any) -> bool:
 
 
 def debug_text_differs_only_by_comment(text: str | None, case: Any) -> bool:
-    """KF-C10-04: the trees become equal once everything from a '#' to the end of its line is removed from the text
-    Constants that precede a replacement field (CPython 3.12.1 does that to the text of '=' debug fields, even when the
-    '#' sits inside a string literal)."""
+    """KF-C10-04: the trees become equal once, in text Constants of a JoinedStr, everything from a '#' to the end of its
+    line is removed from some suffix of the text (the suffix being the text of an '=' debug field, which is merged with
+    the literal part before it). CPython 3.12.1 does that to debug texts, even when the '#' sits inside a string literal."""
     import ast
     import re
 
@@ -122,10 +122,13 @@ def debug_text_differs_only_by_comment(text: str | None, case: Any) -> bool:
     if so != run.TREE or sc != run.TREE:
         return False
     changed = False
-    for node in ast.walk(ours):
-        if isinstance(node, ast.JoinedStr):
-            for a, b in zip(node.values, node.values[1:]):
-                if isinstance(a, ast.Constant) and isinstance(a.value, str) and isinstance(b, ast.FormattedValue) and "#" in a.value:
-                    a.value = re.sub(r"#[^\n]*", "", a.value)
-                    changed = True
+    for a, b in zip(ast.walk(ours), ast.walk(ref)):
+        if type(a) is not type(b):
+            return False
+        if isinstance(a, ast.Constant) and isinstance(a.value, str) and isinstance(b.value, str) and a.value != b.value:
+            v = a.value
+            if not any(v[:i] + re.sub(r"#[^\n]*", "", v[i:]) == b.value for i in range(len(v)) if v[i] == "#" or i == 0):
+                return False
+            a.value = b.value
+            changed = True
     return changed and ast.dump(ours, include_attributes=True) == ast.dump(ref, include_attributes=True)
